@@ -1,4 +1,6 @@
 import AtreeProofs.World.HeapArrR
+import AtreeProofs.Props.C09
+import AtreeProofs.Array.Example
 /-
   "`Arr.set` stores the holder slab" (arrays): a successful `Arr.set T a i v c` stores the data slab
   of the NEW tree that holds the written element `v` — also when `v` equals the element it
@@ -777,15 +779,156 @@ theorem arr_set_holds (hT : legalThreshold T = true) (a : Arr) (c : Ctx) (i : Na
 
 /-- TOP LEVEL: a successful `Arr.set` of an element that fits the inline limit on a valid standalone
     array stores a data slab of the new tree that contains the element — whatever the element it
-    overwrites.  (`c'.eff.drop c.eff.length` is `C09.newEffects c c'`.) -/
+    overwrites.  (`C09.newEffects c c' = c'.eff.drop c.eff.length`, by `rfl`.) -/
 theorem arr_set_stores_holder (hT : legalThreshold T = true) (a : Arr) (c : Ctx) (i : Nat) (v : Elem)
     (hv : ElemOk T v) (h : ArrInv T a c.ctr) (old : Elem) (a' : Arr) (c' : Ctx)
     (hr : a.set T i v c = .ok (old, a', c')) :
     ∃ id s', (id, ASlab.data s') ∈ ATree.slabs a'.d a'.root ∧ v ∈ s'.elems ∧
-      lastAction (c'.eff.drop c.eff.length) id = some true := by
+      lastAction (C09.newEffects c c') id = some true := by
   obtain ⟨E, C, hlog, hold⟩ := arr_set_holds hT a c i v hv h old a' c' hr
-  have hE : c'.eff.drop c.eff.length = E := by rw [hlog.eff]; exact List.drop_left
-  rw [hE]
+  rw [(C09.newEffects_of_log hlog).2.1]
   exact hold.data
+
+/-! ### the holder is unique: distinct data slabs hold distinct positions -/
+
+/-- every element of a data slab of the tree is an element of the flattened list -/
+theorem leaf_elems_sub : ∀ (d : Nat) (t : ATree d) (id : SlabID) (s : DataSlab),
+    (id, ASlab.data s) ∈ ATree.slabs d t → ∀ e ∈ s.elems, e ∈ flatten d t
+  | 0, t, id, s => by
+    refine forall_ofData ?_ t; intro s0 h e he
+    have h : (id, ASlab.data s) ∈ [(s0.hdr.id, ASlab.data s0)] := h
+    simp only [List.mem_singleton, Prod.mk.injEq, ASlab.data.injEq] at h
+    rw [← h.2]; exact he
+  | d + 1, t, id, s => by
+    refine forall_ofMeta ?_ t; intro m h e he
+    rw [slabs_eq, sub_succ] at h
+    rcases List.mem_cons.1 h with h | h
+    · cases h
+    · obtain ⟨child, hc, hin⟩ := List.mem_flatMap.1 h
+      rw [flatten_succ]
+      exact List.mem_flatMap.2 ⟨child, hc, leaf_elems_sub d child id s hin e he⟩
+
+/-- list form of `leaf_positions`, given the statement for the members -/
+theorem leaf_positions_list {d : Nat}
+    (ih : ∀ (t : ATree d) (id1 id2 : SlabID) (s1 s2 : DataSlab),
+      (id1, ASlab.data s1) ∈ ATree.slabs d t → (id2, ASlab.data s2) ∈ ATree.slabs d t → id1 ≠ id2 →
+      ∀ (e1 e2 : Elem), e1 ∈ s1.elems → e2 ∈ s2.elems →
+      ∃ i j : Nat, i ≠ j ∧ (flatten d t)[i]? = some e1 ∧ (flatten d t)[j]? = some e2) :
+    ∀ (L : List (ATree d)) (id1 id2 : SlabID) (s1 s2 : DataSlab),
+      (id1, ASlab.data s1) ∈ L.flatMap (ATree.slabs d) → (id2, ASlab.data s2) ∈ L.flatMap (ATree.slabs d) →
+      id1 ≠ id2 → ∀ (e1 e2 : Elem), e1 ∈ s1.elems → e2 ∈ s2.elems →
+      ∃ i j : Nat, i ≠ j ∧ (L.flatMap (flatten d))[i]? = some e1 ∧ (L.flatMap (flatten d))[j]? = some e2 := by
+  intro L
+  induction L with
+  | nil => intro id1 id2 s1 s2 h1; simp at h1
+  | cons x L ihL =>
+    intro id1 id2 s1 s2 h1 h2 hne e1 e2 he1 he2
+    simp only [List.flatMap_cons, List.mem_append] at h1 h2 ⊢
+    -- an element of a data slab among the slabs of `L` is at some position of the flattened `L`
+    have tailPos : ∀ (id : SlabID) (s : DataSlab) (e : Elem),
+        (id, ASlab.data s) ∈ L.flatMap (ATree.slabs d) → e ∈ s.elems →
+        ∃ j : Nat, (L.flatMap (flatten d))[j]? = some e := by
+      intro id s e h he
+      obtain ⟨child, hc, hin⟩ := List.mem_flatMap.1 h
+      exact List.mem_iff_getElem?.1
+        (List.mem_flatMap.2 ⟨child, hc, leaf_elems_sub d child id s hin e he⟩)
+    have headPos : ∀ (id : SlabID) (s : DataSlab) (e : Elem),
+        (id, ASlab.data s) ∈ ATree.slabs d x → e ∈ s.elems →
+        ∃ i : Nat, i < (flatten d x).length ∧ (flatten d x)[i]? = some e := by
+      intro id s e h he
+      obtain ⟨i, hi⟩ := List.mem_iff_getElem?.1 (leaf_elems_sub d x id s h e he)
+      refine ⟨i, ?_, hi⟩
+      rcases Nat.lt_or_ge i (flatten d x).length with h1 | h1
+      · exact h1
+      · rw [List.getElem?_eq_none h1] at hi; cases hi
+    rcases h1 with h1 | h1 <;> rcases h2 with h2 | h2
+    · obtain ⟨i, j, hij, hi, hj⟩ := ih x id1 id2 s1 s2 h1 h2 hne e1 e2 he1 he2
+      have hi' : i < (flatten d x).length := by
+        rcases Nat.lt_or_ge i (flatten d x).length with h | h
+        · exact h
+        · rw [List.getElem?_eq_none h] at hi; cases hi
+      have hj' : j < (flatten d x).length := by
+        rcases Nat.lt_or_ge j (flatten d x).length with h | h
+        · exact h
+        · rw [List.getElem?_eq_none h] at hj; cases hj
+      exact ⟨i, j, hij, by rw [List.getElem?_append_left hi']; exact hi,
+        by rw [List.getElem?_append_left hj']; exact hj⟩
+    · obtain ⟨i, hi', hi⟩ := headPos id1 s1 e1 h1 he1
+      obtain ⟨j, hj⟩ := tailPos id2 s2 e2 h2 he2
+      refine ⟨i, (flatten d x).length + j, by omega, by rw [List.getElem?_append_left hi']; exact hi, ?_⟩
+      rw [List.getElem?_append_right (by omega)]
+      rw [show (flatten d x).length + j - (flatten d x).length = j by omega]; exact hj
+    · obtain ⟨j, hj', hj⟩ := headPos id2 s2 e2 h2 he2
+      obtain ⟨i, hi⟩ := tailPos id1 s1 e1 h1 he1
+      refine ⟨(flatten d x).length + i, j, by omega, ?_, by rw [List.getElem?_append_left hj']; exact hj⟩
+      rw [List.getElem?_append_right (by omega)]
+      rw [show (flatten d x).length + i - (flatten d x).length = i by omega]; exact hi
+    · obtain ⟨i, j, hij, hi, hj⟩ := ihL id1 id2 s1 s2 h1 h2 hne e1 e2 he1 he2
+      refine ⟨(flatten d x).length + i, (flatten d x).length + j, by omega, ?_, ?_⟩
+      · rw [List.getElem?_append_right (by omega)]
+        rw [show (flatten d x).length + i - (flatten d x).length = i by omega]; exact hi
+      · rw [List.getElem?_append_right (by omega)]
+        rw [show (flatten d x).length + j - (flatten d x).length = j by omega]; exact hj
+
+/-- distinct data slabs of a tree hold distinct positions of the flattened element list
+    (no hypothesis on the IDs is needed: a data slab has one ID) -/
+theorem leaf_positions' : ∀ (d : Nat) (t : ATree d) (id1 id2 : SlabID) (s1 s2 : DataSlab),
+    (id1, ASlab.data s1) ∈ ATree.slabs d t → (id2, ASlab.data s2) ∈ ATree.slabs d t → id1 ≠ id2 →
+    ∀ (e1 e2 : Elem), e1 ∈ s1.elems → e2 ∈ s2.elems →
+    ∃ i j : Nat, i ≠ j ∧ (flatten d t)[i]? = some e1 ∧ (flatten d t)[j]? = some e2
+  | 0, t, id1, id2, s1, s2 => by
+    refine forall_ofData ?_ t; intro s0 h1 h2 hne
+    have h1 : (id1, ASlab.data s1) ∈ [(s0.hdr.id, ASlab.data s0)] := h1
+    have h2 : (id2, ASlab.data s2) ∈ [(s0.hdr.id, ASlab.data s0)] := h2
+    simp only [List.mem_singleton, Prod.mk.injEq] at h1 h2
+    exact absurd (h1.1.trans h2.1.symm) hne
+  | d + 1, t, id1, id2, s1, s2 => by
+    refine forall_ofMeta ?_ t; intro m h1 h2 hne e1 e2 he1 he2
+    rw [slabs_eq, sub_succ] at h1 h2
+    rcases List.mem_cons.1 h1 with h1 | h1
+    · cases h1
+    rcases List.mem_cons.1 h2 with h2 | h2
+    · cases h2
+    rw [flatten_succ]
+    exact leaf_positions_list (leaf_positions' d) m.children id1 id2 s1 s2 h1 h2 hne e1 e2 he1 he2
+
+/-- distinct data slabs of a tree hold distinct positions of the flattened element list -/
+theorem leaf_positions (d : Nat) (t : ATree d) (_hnd : (slabIds d t).Nodup) (id1 id2 : SlabID)
+    (s1 s2 : DataSlab)
+    (h1 : (id1, ASlab.data s1) ∈ ATree.slabs d t) (h2 : (id2, ASlab.data s2) ∈ ATree.slabs d t)
+    (hne : id1 ≠ id2) (e1 e2 : Elem) (he1 : e1 ∈ s1.elems) (he2 : e2 ∈ s2.elems) :
+    ∃ i j : Nat, i ≠ j ∧ (flatten d t)[i]? = some e1 ∧ (flatten d t)[j]? = some e2 :=
+  leaf_positions' d t id1 id2 s1 s2 h1 h2 hne e1 e2 he1 he2
+
+/-! ### non-vacuity: the two-leaf tree of `AtreeProofs/Array/Example.lean` -/
+section Example
+open Atree.Example
+
+/-- overwriting position 1 of the two-leaf array with the element it already holds: the hypotheses
+    of `arr_set_stores_holder` are met … -/
+example : ∃ old a' c', arr4.set T0 1 (elem 1) ⟨3, [], []⟩ = .ok (old, a', c') ∧
+    ElemOk T0 (elem 1) ∧ ArrInv T0 arr4 (⟨3, [], []⟩ : Ctx).ctr ∧ old = elem 1 :=
+  ⟨_, _, _, rfl, elem_ok 1, arr4_inv, rfl⟩
+
+/-- … and the log is `store ⟨1,2⟩` (the left leaf, unchanged in content), `store ⟨1,1⟩` (the root) -/
+example : (arr4.set T0 1 (elem 1) ⟨3, [], []⟩).toOption.map (fun r => r.2.2.eff)
+    = some [.store ⟨1, 2⟩, .store ⟨1, 1⟩] := by decide
+
+/-- the conclusion of `arr_set_stores_holder` on this run, obtained from the theorem -/
+example : ∃ id s', (id, ASlab.data s') ∈ ATree.slabs arr4.d arr4.root ∧ elem 1 ∈ s'.elems ∧
+    lastAction [.store ⟨1, 2⟩, .store ⟨1, 1⟩] id = some true := by
+  have h : arr4.set T0 1 (elem 1) ⟨3, [], []⟩
+      = .ok (elem 1, arr4, ⟨3, [.store ⟨1, 2⟩, .store ⟨1, 1⟩], []⟩) := by rfl
+  exact arr_set_stores_holder legal arr4 ⟨3, [], []⟩ 1 (elem 1) (elem_ok 1) arr4_inv _ _ _ h
+
+/-- two leaves, two different IDs: `leaf_positions` applies -/
+example : ∃ i j : Nat, i ≠ j ∧ (flatten arr4.d arr4.root)[i]? = some (elem 1) ∧
+    (flatten arr4.d arr4.root)[j]? = some (elem 2) :=
+  leaf_positions 1 (ofMeta rootSlab) (by decide) ⟨1, 2⟩ ⟨1, 3⟩ left right
+    (List.mem_cons_of_mem _ List.mem_cons_self)
+    (List.mem_cons_of_mem _ (List.mem_cons_of_mem _ List.mem_cons_self))
+    (by decide) (elem 1) (elem 2) (by simp [left]) (by simp [right])
+
+end Example
 
 end Atree
